@@ -64,7 +64,8 @@ class TimerWorld(pipe.PipeWorld):
         month = 1 + ch.choose('cal.month', 12)
         last = _cal.monthrange(year, month)[1]
         day = [1 + ch.choose('cal.day', last), last, last - 1, 1][ch.choose('cal.daykind', 4)]
-        start = _dt.datetime(year, month, day, ch.choose('cal.h', 24), ch.choose('cal.m', 60), ch.choose('cal.s', 60), tzinfo=UTC)
+        hms = [(ch.choose('cal.h', 24), ch.choose('cal.m', 60), ch.choose('cal.s', 60)), (0, 0, 20), (0, 3, 30), (23, 58, 0)][ch.choose('cal.hmskind', 4)]
+        start = _dt.datetime(year, month, day, *hms, tzinfo=UTC)  # biased to the minutes around midnight
         super().build()
         boot.set_epoch(start)
         self.t0 = start
@@ -77,7 +78,7 @@ class TimerWorld(pipe.PipeWorld):
         for _ in range(1 + ch.choose('ev.n', 3)):
             a = algs[ch.choose('ev.alg', len(algs))]
             k = ['boot', 'dow', 'dom', 'dow', 'dom', 'day'][ch.choose('ev.kind', 6)]
-            near = start + _dt.timedelta(seconds=[-600, -10, 10, 200, 400, 5000, 86400 * 3][ch.choose('ev.near', 7)])
+            near = start + _dt.timedelta(seconds=[-600, -10, 10, 200, 400, 5000, 86400 * 3, -100, -250][ch.choose('ev.near', 9)])
             tod = [(ch.choose('ev.h', 24), ch.choose('ev.m', 60), ch.choose('ev.s', 60)), (near.hour, near.minute, near.second), (0, 0, 0), (23, 59, 59)][ch.choose('ev.tod', 4)]
             if k == 'boot':
                 e = (a.full, 'boot', True, None)
@@ -165,7 +166,23 @@ class TimerWorld(pipe.PipeWorld):
                 self.violate('C20', 'fired_without_all_targets', kind or '?', f'{tag} fired at {now.isoformat()}: pending {sorted(todo)}, known targets {sorted(known)}')
             if want and n not in schedule.que:
                 self.violate('C20', 'fired_but_not_queued', kind or '?', f'{tag} fired at {now.isoformat()} but is not in the work queue')
-        self.defer_timers = [dc for dc in self.defer_timers if dc.active()] + [dc for dc in sim.timers if dc not in timers0]
+        new_timers = [dc for dc in sim.timers if dc not in timers0]
+        self.defer_timers = [dc for dc in self.defer_timers if dc.active()] + new_timers
+        # the timer armed by this evaluation must not sleep past the next occurrence of an event it has just evaluated
+        if new_timers and err is None:
+            wake = self.t0 + _dt.timedelta(seconds=min(dc.getTime() for dc in new_timers) + boot._state['skew'])
+            status = self.defer_log[-1][1]
+            for ev in self.spec.events:
+                tag = ev[0]
+                if ev[1] == 'boot' or tag not in nodes or status.get(tag) in ('waiting', 'running'):
+                    continue  # skipped by the status filter: that is the known finding, reported by the calendar check
+                nxt = occurrences(ev, now - _dt.timedelta(seconds=WINDOW), now + _dt.timedelta(days=63))
+                if not nxt or (nxt[0] - now).total_seconds() <= WINDOW:
+                    continue  # due at this evaluation: what happens to its *next* occurrence belongs to the known re-arm finding
+                if (wake - nxt[0]).total_seconds() > 1.0:
+                    self.violate('C20', 'timer_sleeps_past_event', ev[1],
+                                 f'evaluated at {now.isoformat()}: the timer was armed for {wake.isoformat()}, later than the next occurrence '
+                                 f'{nxt[0].isoformat()} of {ev} (which was evaluated, not skipped)')
         if err is not None:
             self.probes['defer_raised'] += 1
             self.op(f'timer: defer() raised {err!r}')
